@@ -36,7 +36,8 @@ FailedC13(t) ==
     UNION {CallFailed(n, t.calls[i]) : i \in DOMAIN t.calls}
     \cup (IF \E i \in DOMAIN t.calls : i > 1 /\ (t.calls[i].matrices # t.calls[1].matrices \/ t.calls[i].exkeys # t.calls[1].exkeys)
           THEN {"repeated_extraction_differs"} ELSE {})
-    \cup (IF t.calls # <<>> /\ t.first_again # t.calls[1].matrices THEN {"earlier_result_changed_by_a_later_extraction"} ELSE {})
+    \cup (IF t.calls # <<>> /\ (t.first_again # t.calls[1].matrices \/ t.first_keys_again # t.calls[1].exkeys)
+          THEN {"earlier_result_changed_by_a_later_extraction"} ELSE {})
     \cup (IF ~RowsOK(t.overall) THEN {"overall_value_not_multiple_of_1_over_2E"}
           ELSE IF \E j \in DOMAIN t.overall : t.overall[j].D # 2 * Cardinality(DOMAIN n.g) THEN {"overall_wrong_denominator"}
           ELSE IF MatTab(t.overall) # ExpectedOverall(n.g) THEN {"overall_degree_variant_not_exact"} ELSE {})
